@@ -519,7 +519,33 @@ func ruleC08_4(c *Ctx) {
 	}
 	R.Check(okForms && len(gQuant) > 0, key+":formula", pos, "floor(64c + 1/2)/64 or c", detail)
 	if len(gQuant) > 0 {
-		R.Check(equivalent(sym.Or(gQuant...), want), key+":guard", pos, "quantised iff low resolution and -128 <= c < 128", shortKey(sym.Or(gQuant...)))
+		got := sym.Or(gQuant...)
+		okG := equivalent(got, want)
+		if !okG {
+			// the resolution flag may reach the quantiser as a parameter instead of a field: the one boolean input the
+			// guard mentions besides the coordinate
+			var flags []*sym.Term
+			sym.Walk(got, func(x *sym.Term) bool {
+				if x.Op == "atom" && x.T != nil {
+					if b, isB := x.T.Underlying().(*types.Basic); isB && b.Kind() == types.Bool {
+						dup := false
+						for _, f := range flags {
+							if f.Key() == x.Key() {
+								dup = true
+							}
+						}
+						if !dup {
+							flags = append(flags, x)
+						}
+					}
+				}
+				return true
+			})
+			if len(flags) == 1 && strings.Contains(strings.ToLower(flags[0].Name), "res") {
+				okG = equivalent(got, sym.Subst(want, sym.Atom("hires", nil), flags[0]))
+			}
+		}
+		R.Check(okG, key+":guard", pos, "quantised iff low resolution and -128 <= c < 128", shortKey(got))
 	}
 	// coverage
 	modeT := c.Named("encode", "mode")
